@@ -227,7 +227,8 @@ def run_impl(cases):
         for c in ch:
             PREVIOUS[c["id"]] = last.get(c["tol"])
             last[c["tol"]] = c["crystal"]
-    outs = C.impl_run_parallel("c15_impl", [{"cases": [{"id": c["id"], "crystal": c["crystal"], "tol": c["tol"]} for c in ch]} for ch in chunks], jobs=JOBS)
+    outs = C.impl_run_parallel("c15_impl", [{"cases": [dict({"id": c["id"], "crystal": c["crystal"], "tol": c["tol"]}, **({"getters": c["getters"]} if c.get("getters") is not None else {}))
+                                                       for c in ch]} for ch in chunks], jobs=JOBS)
     res = {}
     for o in outs:
         for r in o["results"]:
@@ -243,6 +244,8 @@ def predicate(r, soh):
         return "flag-not-boolean"
     if r["flag"] != r["flag_again"]:
         return "flag-not-deterministic"
+    if r.get("flag_after_getters") is not None and r["flag_after_getters"] != r["flag"]:
+        return "flag-depends-on-order-of-public-calls"
     ru = r.get("reused_analyzer")
     if ru is not None and (ru[0] == "error" or ru[0] != r["flag"] or ru[2] != r["flag"] or ru[1] != r["number"]):
         return "flag-depends-on-analyzer-history"
@@ -421,6 +424,10 @@ def report(ctx, soh, tables, c, r, reason, baseline=None, broken=None, do_shrink
            "implementation": trim(rr), "expected_flag": (rr.get("number") in soh) if "number" in rr else None,
            "scanned_matrices_with_inexact_float_determinant": [{"matrix": m, "float_det": v, "exact_det": det3(m)} for m, v in inexact[:6]],
            "baseline": baseline, "broken_obligation": broken}
+    if reason == "flag-depends-on-order-of-public-calls":
+        rep["history"] = ("a fresh SymmetryAnalyzer on presented_crystal: the public getters listed in getters_called_first are called in that order, then "
+                          "get_is_chiral() answers implementation.flag_after_getters, while a fresh analyzer asked directly answers implementation.flag")
+        rep["getters_called_first"] = rr.get("getters_called_first")
     if reason == "flag-depends-on-analyzer-history":
         rep["history"] = ("one SymmetryAnalyzer object: constructed on / set_system(previous_crystal), get_is_chiral(); then set_system(presented_crystal): "
                           "get_is_chiral() / get_space_group_number() differ from a fresh analyzer's (implementation.reused_analyzer = [flag, number, flag again])")
@@ -712,7 +719,7 @@ def replay(ctx, rep):
     if "presented_crystal" not in rep:
         print("replay: nothing to re-run for kind", rep.get("kind"))
         return
-    cs = [{"id": 0, "crystal": rep["presented_crystal"], "tol": rep.get("tol", TOL)}]
+    cs = [{"id": 0, "crystal": rep["presented_crystal"], "tol": rep.get("tol", TOL), "getters": rep.get("getters_called_first")}]
     if rep.get("previous_crystal"):
         cs.insert(0, {"id": 2, "crystal": rep["previous_crystal"], "tol": rep.get("tol", TOL)})
     if rep.get("crystal"):
